@@ -14,6 +14,11 @@ JOBS += [
   Job("c11.fini", TU, "h_fini", replace=["myth_tls_call_destructors_rec/destructors_rec_contract", "myth_tls_tree_destroy_rec/destroy_rec_contract"],
       cbmc=UNW, fuc=["myth_tls_tree_fini", "myth_tls_call_destructors", "myth_tls_tree_destroy"], timeout=600, mem_gb=8),
 ]
+# the destructor walk hands the values found in the leaves to the destructors: a leaf that comes out of the allocator
+# with stale slots (recycled descriptor) makes it call destructors with values the thread never stored.  Leaf/node
+# allocation and the store/load path are checked in the C10 tree jobs, imported here (bounded: counted apart).
+from units import c10 as _c10
+JOBS = list(JOBS) + [j for j in _c10.JOBS if j.name in ("c10.tree.get.bounded", "c10.tree.set.bounded", "c10.tree.init")]
 META = {
  "level": "proof",
  "level_text": "Inductive contract proof (--enforce-contract-rec) of the real recursive destructor walk and node release for an arbitrary tree level, any witness key, any destructor table and values; the top-level myth_tls_tree_fini is checked against those contracts. ",
@@ -26,5 +31,6 @@ META = {
    "flat address space: a node outside the descriptor's embedded pool compares outside the pool bounds (cross-object pointer comparison in myth_tls_tree_node_free is not decidable in CBMC's memory model; node_free is used by contract, its body is proved for pool nodes only)",
    "a destructor call with a NULL value is tolerated (at most once per key); POSIX forbids it, see C16",
    "inner loops are bounded by constants of the type (4 children, 16 entries, 1024 keys) and fully unwound with unwinding assertions",
+   "the values the walk finds in a leaf are those the thread stored (fresh leaves are all-NULL): decided by the imported C10 tree jobs, which are bounded stand-ins (tree states reachable by <= 2 earlier stores built by the real code) and not counted as proved",
  ],
 }
